@@ -349,6 +349,22 @@ def walk_stage(c, cfg):
                        'real': meta[0][3][1] if meta[0][3][0] == 'err' else meta[0][3][1][0], 'model': model[0]}})
 
 
+def _numnorm(j):
+  """numbers by VALUE (the wire may change the Python type: True -> 1.0, 2 -> 2.0), everything else as is"""
+  from fractions import Fraction
+  if isinstance(j, dict):
+    if len(j) == 1:
+      (k, v), = j.items()
+      if k == 'b':
+        return {'n': '1' if v else '0'}
+      if k in ('i', 'f'):
+        return {'n': str(Fraction(v))}
+    return {k: _numnorm(v) for k, v in j.items()}
+  if isinstance(j, list):
+    return [_numnorm(v) for v in j]
+  return j
+
+
 # ------------------------------------------------------------------ clients.Study.add_trial
 def client_stage(c, cfg):
   from vcheck import svc
@@ -367,10 +383,14 @@ def client_stage(c, cfg):
       vizier_client._create_local_vizier_servicer.cache_clear()   # pylint: disable=protected-access
       for si in range(n_spaces):
         names = sl.name_stream(c.rng)
-        conditional = si == 0
+        conditional = si in (0, 1)
         # wire_safe: an INTEGER parameter with a bool bound/default cannot be written to the StudySpec proto (int64 field)
         nodes = [sl.gen_tree(c.rng, names, 2 if conditional else 1, p_child=1.0 if conditional else 0.0, wire_safe=True)
                  for _ in range(c.rng.randrange(1, 4))]
+        if si == 1:
+          # a conditional space whose ROOT parent is numeric (integer / discrete), next to a flat parameter
+          nodes = [sl.gen_tree(c.rng, names, 2, kind=c.rng.choice(['int', 'discrete']), p_child=1.0, wire_safe=True),
+                   sl.gen_tree(c.rng, names, 1, p_child=0.0, wire_safe=True)]
         try:
           ss = sl.build_space(nodes)
         except Exception:  # pylint: disable=broad-except
@@ -379,6 +399,16 @@ def client_stage(c, cfg):
         sc.metric_information.append(vz.MetricInformation(name='obj', goal=vz.ObjectiveMetricGoal.MAXIMIZE))
         study = clients.Study.from_study_config(sc, owner='o', study_id='c16_%s_%d_%d' % (bname, c.seed, si))
         dumped = sl.dump_space(ss)
+        # the definition the service holds is the one that was given (what add_trial validates against)
+        try:
+          held = sl.dump_space(study.materialize_study_config().search_space)
+        except Exception as e:  # pylint: disable=broad-except
+          held = 'ERR:' + type(e).__name__
+        c.count(1, kind='definition-read-back:' + bname)
+        if _numnorm(held) != _numnorm(dumped):
+          c.prop_fail('definition-changed-by-study-creation',
+                      'the search space read back from the study differs from the definition it was created with (backend %s)' % bname,
+                      {'backend': bname, 'defined': dumped, 'read_back': held})
         for _ in range(per):
           a, kind = sl.gen_assignment(c.rng, dumped)
           before = len(list(study.trials().get()))
